@@ -28,11 +28,11 @@ var scopeTable = []scopeEntry{
 	// rejection funnel
 	sc("CMD-1", `:propagates`, "C05", "C07"),
 	sc("CMD-1", `:rejected=>returned@`, "C07"),
-	sc("CMD-1", `:verdict\[`, "C01", "C04", "C09", "C10", "C11"),
+	sc("CMD-1", `:verdict\[`, "C01", "C04", "C07", "C09", "C10", "C11"),
 	sc("CMD-1", `:reject\[Errorf`, "C01", "C04", "C07"),
 	sc("CMD-1", `:reject\[`, "C01", "C04", "C07", "C13", "C19"),
 	// compile path
-	sc("CMD-10", `:(spec-args-part|spec-options-part)`, "C16"),
+	sc("CMD-10", `:(spec-args-part|spec-options-part)`, "C08", "C16"), // a given spec reaches the scanner as written
 	sc("CMD-10", `^writers\(Cmd\.Spec\)`, "C16"),
 	sc("CMD-10", `:scanner-input`, "C01", "C03", "C08", "C16"),
 	sc("CMD-10", `:parser-input`, "C01", "C03", "C04", "C08", "C16"),
@@ -54,14 +54,16 @@ var scopeTable = []scopeEntry{
 	sc("CMD-5", `\.Version$`, "C14"),
 	// routing
 	sc("CMD-6", `:help-descent`, "C14"),
-	sc("CMD-6", `:split`, "C04", "C07", "C10"), // the split compares whole tokens with aliases: it never looks inside an option token
-	sc("CMD-6", `:(descent|own-tokens)`, "C04", "C07"),
+	sc("CMD-6", `:split`, "C04", "C07", "C10"),             // the split compares whole tokens with aliases: it never looks inside an option token
+	sc("CMD-6", `:own-tokens`, "C02", "C04", "C07", "C09"), // the level's tokens reach the automaton as they are
+	sc("CMD-6", `:descent`, "C04", "C07"),
 	sc("CMD-7", `getOptsAndArgs$|level-split`, "C04", "C10"),
 	sc("CMD-7", `.`, "C04"),
 	sc("CMD-6", `^writers\(Cmd\.fsm\)`, "C02", "C04", "C15"), // an automaton compiled elsewhere binds into another command's containers
 	sc("CMD-6", `.`, "C04", "C07", "C14"),
 	// registration
 	sc("DECL-4", `:listed|^writers\(Cmd\.options`, "C10", "C16", "C18"), // [OPTIONS] is derived from the list
+	sc("DECL-4", `mkOptStrs$`, "C10", "C17", "C18"),                     // the help shows the first short and long name as declared
 	sc("DECL-4", `.`, "C10", "C18"),
 	sc("DECL-5", `:insert`, "C18"),
 	sc("DECL-5", `:listed`, "C16", "C18"),
@@ -75,7 +77,7 @@ var scopeTable = []scopeEntry{
 	// contexts
 	sc("FSM-4", `:context-follows-branch`, "C02", "C09", "C15"), // the context carries the options-ended flag
 	sc("FSM-4", `:(merge-on-success|root-context)`, "C02", "C15"),
-	sc("FSM-4", `Merge:`, "C02"),
+	sc("FSM-4", `Merge:`, "C02", "C15"),
 	// who drives Set/Clear
 	sc("FSM-5", `^driver `, "C02", "C06", "C19"),
 	sc("FSM-5", `->fillContainers`, "C02", "C07", "C13", "C19"),
@@ -93,6 +95,8 @@ var scopeTable = []scopeEntry{
 	sc("HELP-1", `:parents`, "C07", "C14", "C17"), // C07: the usage of the rejecting command names its full path
 	sc("HELP-1", `:usage-line`, "C07", "C14", "C16", "C17"),
 	sc("HELP-1", `.`, "C14", "C16", "C17"),
+	// the option matcher's exits
+	sc("MAT-4", `:exit#`, "C01", "C12"),
 	// the group matcher
 	sc("MAT-6", `:gives-up`, "C01", "C11", "C12"),
 	sc("MAT-6", `.`, "C12", "C03", "C10"),
